@@ -134,6 +134,11 @@ type SSEServerTransport struct {
 	mu     sync.Mutex    // also guards writes to Response
 	closed bool          // set when the stream is closed
 	done   chan struct{} // closed when the connection is closed
+
+	// server, if set (by SSEHandler), is the server this transport is connected
+	// to: its receiving methods include those registered with
+	// AddReceivingCustomMethod. Guarded by mu.
+	server *Server
 }
 
 // ServeHTTP handles POST requests to the transport endpoint.
@@ -158,7 +163,14 @@ func (t *SSEServerTransport) ServeHTTP(w http.ResponseWriter, req *http.Request)
 		return
 	}
 	if req, ok := msg.(*jsonrpc.Request); ok {
-		if _, err := checkRequest(req, serverMethodInfos); err != nil {
+		methodInfos := serverMethodInfos
+		t.mu.Lock()
+		server := t.server
+		t.mu.Unlock()
+		if server != nil {
+			methodInfos = server.receivingMethodInfos()
+		}
+		if _, err := checkRequest(req, methodInfos); err != nil {
 			http.Error(w, err.Error(), http.StatusBadRequest)
 			return
 		}
@@ -278,6 +290,9 @@ func (h *SSEHandler) ServeHTTP(w http.ResponseWriter, req *http.Request) {
 		http.Error(w, "no server available", http.StatusBadRequest)
 		return
 	}
+	transport.mu.Lock()
+	transport.server = server
+	transport.mu.Unlock()
 	ss, err := server.Connect(req.Context(), transport, nil)
 	if err != nil {
 		http.Error(w, "connection failed", http.StatusInternalServerError)
